@@ -13,6 +13,8 @@ EXPLANATION = (
     "or listed in a reviewed table with its reason; anything else is a reachable panic. C11.2 raw reads through a pointer taken from a &str/&[u8] (not NUL-terminated by type) are dominated by a comparison with that slice's length "
     "(reads through a UnixStr pointer are covered by the terminator invariant, C10). C11.3 the needle `find` hands to the searcher is the string without its terminator: the slice ends at len-1 (sibling find_buf passes the caller's bytes unchanged), "
     "and an empty needle never reaches an index. C11.4 split points: path_file_name returns the suffix starting one past the separator it found, under the guard that something follows; parent_path cuts before the separator (C10 checks the terminator). "
+    "C11.6 separator accounting in path_join / path_join_fmt: on every path that appends the extension, (base ends with '/') + (extension starts with '/') + ('/' pushed) - (leading '/' skipped) == 1 with both facts tested on that path, and the extension is appended once. "
+    "C11.7 ends_with answers true only after the needle's first byte was compared (dominating `needle index == 0`, exhausted needle, or a counting loop whose last round compares index 0). "
     "NOT decided: agreement of the results with the byte-string definitions for all operand pairs (first occurrence, suffix test, prefix length) - value-level.")
 ASSUMPTIONS = ["slices and vectors are at most isize::MAX long", "reviewed table of loop-invariant arithmetic (see rule module)"]
 
@@ -36,6 +38,8 @@ def run(ck, progs, tier):
     for cfgname, prog in progs.items():
         ck.set_config(prog)
         run_one(ck, prog)
+        check_join_separators(ck, prog)
+        check_ends_with(ck, prog)
 
 
 def run_one(ck, prog):
@@ -204,3 +208,162 @@ def check_scan_step(ck, prog):
                 why = f"the scan position is updated with {show(d)}"
         ck.ob("C11.5", "scan-advances-one-position-at-a-time", ok, fn=fn["path"], site=ctx.site(bb),
               detail=f"the search must try every start position in order (first occurrence): {why or 'the start index is neither a 0..len range nor a +1 counter'}; skipping ahead after a partial match misses overlapping occurrences (\"aaab\".find(\"aab\"))")
+
+
+def check_join_separators(ck, prog):
+    """C11.6 separator accounting for path_join / path_join_fmt: on every path that appends the extension to a non-empty base,
+    (base ends with '/') + (ext starts with '/') + ('/' pushed) - (leading '/' of ext skipped) == 1, both facts are tested on the
+    path, and the extension is appended exactly once."""
+    from ..engine.dtable import enumerate_paths, path_local_value
+    from .c12 import mentions
+    def is_slash(a):
+        """the constant b'/' (by value, or a promoted reference to it)"""
+        if fold(a) == 47:
+            return True
+        x = strip_casts(a)
+        n = 0
+        while isinstance(x, tuple) and x and x[0] in ("ref", "deref", "addr") and n < 6:
+            x = strip_casts(x[2] if x[0] in ("ref", "addr") else x[1])
+            n += 1
+        if not (isinstance(x, tuple) and x and x[0] == "const"):
+            return False
+        if x[1] == 47 or (len(x) > 4 and tuple(x[4]) == (47,)):
+            return True
+        # `&&u8` promoted: the pointee of the pointer stored at offset 0 is the byte
+        return len(x) > 5 and any(off == 0 and str(x[3]).endswith("u8") and mem[:1] == (47,) for off, mem in x[5])
+    for nm in ("path_join", "path_join_fmt"):
+        fn = prog.fns.get(M + "UnixStr::" + nm)
+        if fn is None:
+            if ck.config != "C":
+                ck.anchor("C11.6", nm, None)
+            continue
+        ctx = prog.ctx(fn)
+        cfg = ctx.cfg
+        paths = enumerate_paths(ctx, max_paths=3000)
+        n_checked = 0
+        bad = []
+        for edges in paths:
+            blocks = [0] + [e.dst for e in edges]
+            ext = [b for b in blocks if cfg.term(b)["k"] == "call" and (cfg.term(b).get("callee") or "").endswith(("Vec::<T, A>::extend_from_slice", "Extend::extend"))]
+            if not ext:
+                continue          # an early return (one side empty)
+            B = E = None
+            contradiction = False
+            for e in edges:
+                for f in ctx.edge_facts(e):
+                    subj = None
+                    val = None
+                    if f[0] == "cmp" and f[1] in ("Eq", "Ne") and 47 in (fold(f[2]), fold(f[3])):
+                        subj = f[3] if fold(f[2]) == 47 else f[2]
+                        val = f[1] == "Eq"
+                    elif f[0] == "truth" and isinstance(f[1], tuple) and f[1][0] == "call" and (f[1][1] or "").endswith(("PartialEq::eq", "PartialEq::ne")) and any(is_slash(a) for a in f[1][2]):
+                        subj = [a for a in f[1][2] if not is_slash(a)]
+                        subj = subj[0] if subj else None
+                        val = f[2] if f[1][1].endswith("::eq") else (not f[2])
+                    if f[0] == "variant" and f[2] == "None" and mentions(f[1], ctx.prov, lambda z: z[0] == "call" and (z[1] or "").endswith("::first")):
+                        # an empty extension has no leading slash
+                        contradiction |= E is True
+                        E = False if E is None else E
+                        continue
+                    if subj is None:
+                        continue
+                    is_base = mentions(subj, ctx.prov, lambda z: z[0] == "call" and (z[1] or "").endswith("::last"))
+                    is_ext = mentions(subj, ctx.prov, lambda z: z[0] == "call" and (z[1] or "").endswith(("::first", "::get_unchecked", "::get")))
+                    if is_base and not is_ext:
+                        contradiction |= B is not None and B != val
+                        B = val
+                    elif is_ext:
+                        contradiction |= E is not None and E != val
+                        E = val
+            if contradiction:
+                continue
+            pushes = sum(1 for b in blocks if cfg.term(b)["k"] == "call" and (cfg.term(b).get("callee") or "").endswith("Vec::<T, A>::push") and fold(ctx.args(b)[1]) == 47)
+            skips = 0
+            for idx, b in enumerate(blocks):
+                if b not in ext:
+                    continue
+                a = ctx.args(b)[1]
+                for z in walk_deep(a, ctx.prov, limit=120):
+                    if z[0] == "agg" and str(z[1]).endswith("ops::range::RangeFrom") and z[3]:
+                        st = z[3][0]
+                        v = fold(st)
+                        if v is None and isinstance(strip_casts(st), tuple) and strip_casts(st)[0] == "var":
+                            pv = path_local_value(ctx, edges[:idx], strip_casts(st)[1])
+                            v = fold(pv) if pv is not None else None
+                        if v is None or v >= 1:
+                            skips += 1 if v == 1 else 99
+            n_checked += 1
+            if B is None or E is None:
+                bad.append(f"a path appends the extension without having tested {'the base' if B is None else 'the extension'} for a slash at the boundary (base={B}, ext={E}, pushed={pushes}, skipped={skips})")
+            elif int(B) + int(E) + pushes - skips != 1 or len(ext) != 1:
+                bad.append(f"base ends with '/': {B}, extension starts with '/': {E}, '/' pushed: {pushes}, leading '/' skipped: {skips}, appends: {len(ext)} -> {int(B) + int(E) + pushes - skips} separator(s) at the boundary")
+        ck.floor("C11.6", f"{nm}|joining paths analysed", n_checked, 3)
+        ck.ob("C11.6", f"{nm}|exactly-one-separator-at-the-boundary", not bad, fn=fn["path"], detail="; ".join(sorted(set(bad))[:3]) or f"{n_checked} paths")
+
+
+def check_ends_with(ck, prog):
+    """C11.7 ends_with answers `true` only after the comparison has reached the needle's FIRST byte: every `true` result is
+    dominated by (needle index == 0), or by the needle being exhausted (`get` on it returned None), or it is the exit of a counting
+    loop whose last round compared needle index 0 (checked by substituting the last counter value into the index expression)."""
+    from .c07 import Lin
+    from .c12 import mentions
+    fn = prog.fns.get(M + "UnixStr::ends_with")
+    if not ck.anchor("C11.7", "UnixStr::ends_with", fn):
+        return
+    ctx = prog.ctx(fn)
+    cfg = ctx.cfg
+    lin = Lin(ctx)
+    is_other = lambda z: z[0] == "param" and z[1] == 2  # noqa: E731
+    # needle index expressions: the index handed to get()/Index on other.0, or a bounds assertion over other.0
+    idx_exprs = []
+    for bb, t in cfg.calls(lambda t: (t.get("callee") or "").endswith(("<impl [T]>::get", "Index::index", "<impl [T]>::get_unchecked"))):
+        a = ctx.args(bb)
+        if mentions(a[0], ctx.prov, is_other) and not mentions(a[0], ctx.prov, lambda z: z[0] == "param" and z[1] == 1):
+            idx_exprs.append(a[1])
+    for b in fn["blocks"]:
+        t = b["term"]
+        if b["id"] in cfg.live_blocks() and t["k"] == "assert" and t["msg"] == "bounds":
+            at = (b["id"], len(b["stmts"]))
+            ln, ix = ctx.prov.operand(t["ops"][0], at), ctx.prov.operand(t["ops"][1], at)
+            if mentions(ln, ctx.prov, is_other) and not mentions(ln, ctx.prov, lambda z: z[0] == "param" and z[1] == 1):
+                idx_exprs.append(ix)
+    ck.floor("C11.7", "needle index expressions", len(idx_exprs), 1)
+    trues = [b["id"] for b in fn["blocks"] if b["id"] in cfg.live_blocks() and not b.get("cleanup") and
+             any(st["k"] == "assign" and st["dst"]["l"] == 0 and not st["dst"].get("p") and fold(ctx.prov.rvalue(st["rv"], (b["id"], i))) == 1 for i, st in enumerate(b["stmts"]))]
+    ck.floor("C11.7", "`true` results", len(trues), 1)
+    # edges that justify a `true`: needle index == 0, a `get` that ran out, or the exit of a counting loop whose last round compared index 0
+    good = set()
+    why = []
+    for sb in cfg.live_blocks():
+        if cfg.term(sb)["k"] != "switch":
+            continue
+        for e in cfg.succ[sb]:
+            for f in ctx.edge_facts(e):
+                if f[0] == "cmp" and f[1] == "Eq" and 0 in (fold(f[2]), fold(f[3])):
+                    subj = f[3] if fold(f[2]) == 0 else f[2]
+                    if any(canon(strip_casts(subj)) == canon(strip_casts(ix)) for ix in idx_exprs):
+                        good.add((e.src, e.dst))
+                if f[0] == "variant" and f[2] == "None" and mentions(f[1], ctx.prov, lambda z: z[0] == "call" and (z[1] or "").endswith("<impl [T]>::get") and mentions(z[2][0], ctx.prov, lambda w: w[0] == "param")):
+                    good.add((e.src, e.dst))
+                if f[0] == "cmp" and f[1] in ("Ge", "Gt") and isinstance(strip_casts(f[2]), tuple) and strip_casts(f[2])[0] == "var":
+                    cnt = strip_casts(f[2])
+                    R = lin.of(f[3])
+                    if R is None:
+                        continue
+                    last = (R[0], R[1] - 1) if f[1] == "Ge" else R
+                    vname = f"v:{cnt[2] or cnt[1]}"
+                    for ix in idx_exprs:
+                        I = lin.of(ix)
+                        if I is None or vname not in I[0]:
+                            continue
+                        coef = I[0][vname]
+                        rest = ({t: c for t, c in I[0].items() if t != vname}, I[1])
+                        val = Lin._add(rest, ({t: c * coef for t, c in last[0].items()}, last[1] * coef), 1)
+                        why.append(f"loop exits when {show(f[2])} {f[1]} {show(f[3])}: the last needle index compared is {val}")
+                        if val == ({}, 0):
+                            good.add((e.src, e.dst))
+    r = cfg.reachable_from(0, avoid_edges=good)
+    for k, tb in enumerate(sorted(trues)):
+        ok = tb not in r
+        ck.ob("C11.7", f"true-only-after-the-needles-first-byte-was-compared|#{k}", ok, fn=fn["path"], site=ctx.site(tb),
+              detail="ends_with can answer `true` without the comparison having reached needle index 0 (" + ("; ".join(sorted(set(why))) or "no `index == 0` test, exhausted-`get` edge or counting-loop exit on the way") + "): a needle differing only in its first byte is accepted as a suffix")
